@@ -854,6 +854,21 @@ func handleBetweenExpr(p *TableAliasStmtInfo, expr *ast.BetweenExpr) (bool, []in
 	if err != nil {
 		return false, nil, nil, fmt.Errorf("check BetweenExpr error: %v", err)
 	}
+
+	// the column names of an expression that is not a column, and those of the bounds, take no part in
+	// routing but are rewritten like everywhere else
+	if _, isColumn := expr.Expr.(*ast.ColumnNameExpr); !isColumn {
+		if expr.Expr, err = rewriteColumnNamesInExpr(p, expr.Expr); err != nil {
+			return false, nil, nil, fmt.Errorf("rewrite column names in BetweenExpr.Expr error: %v", err)
+		}
+	}
+	if expr.Left, err = rewriteColumnNamesInExpr(p, expr.Left); err != nil {
+		return false, nil, nil, fmt.Errorf("rewrite column names in BetweenExpr.Left error: %v", err)
+	}
+	if expr.Right, err = rewriteColumnNamesInExpr(p, expr.Right); err != nil {
+		return false, nil, nil, fmt.Errorf("rewrite column names in BetweenExpr.Right error: %v", err)
+	}
+
 	if !need {
 		return false, nil, expr, nil
 	}
